@@ -102,7 +102,7 @@ def match_on(fn, enum_name, min_arms=10):
     """the `match` expressions in a function whose arms are patterns of the given
     enum, with at least min_arms arms (or-patterns expanded)"""
     out = []
-    for m in A.find(fn["body"], "Match"):
+    for m in A.find(fn.get("body", fn) if isinstance(fn, dict) and fn.get("k") == "Fn" else fn, "Match"):
         n = 0
         for arm in m["arms"]:
             for p in A.flatten_or(arm["pat"]):
